@@ -291,6 +291,7 @@ def mk_join(it, mode='half-outer', source_delete=True, agg='sum', target_key=Tru
         raise Unsupported('CONTRACT-MAPPING join: the run prologue opened %d stores' % len(dbs))
     usage, db = dbs[0], dbs[1]
     func.stores_opened = dbs
+    func.mapping_of_the_prologue_run = func.env.lookup('fields')
     check(it, 'callers-field-specification-left-as-given-by-a-run-too', shape(fields) == given)
     # T6 is assumed for the store AS THE LIBRARY CREATES IT BY DEFAULT (values pickled: what is read back is equal to what was stored,
     # whatever its type -- dates with microseconds, Decimals, tuples, non-string keys).  Another serializer is another contract.
@@ -593,6 +594,16 @@ def sym_join_field_order(vc):
         vc.explore(fk, thunk)
 
 
+def _parts(v, acc=None):
+    from pyvc.api import PyDict, PyList
+    acc = [] if acc is None else acc
+    if isinstance(v, (PyDict, PyList)):
+        acc.append(v)
+        for x in (v.d.values() if isinstance(v, PyDict) else v.items):
+            _parts(x, acc)
+    return acc
+
+
 def sym_join_func(vc):
     """join_aux.func(package): descriptor phase on the package's own descriptor FIRST, then the package, then exactly the streams of
     new_resource_iterator(package), and only after the last of them both key-value stores are closed"""
@@ -624,6 +635,11 @@ def sym_join_func(vc):
         check(it, 'own-stores-opened-then-descriptor-phase-then-package-then-the-joined-streams-then-both-stores-closed',
               names == ['KVFile', 'KVFile', 'process_datapackage', 'Yield', 'new_resource_iterator', 'YieldFrom', 'db3.close', 'db2.close']
               and len(func.stores_opened) == 4)
+        # ... and its own copy of the field mapping as specified: what the run before made of it (a '*' expanded for ITS package)
+        # is not what this run works on
+        m1, m2 = func.mapping_of_the_prologue_run, func.env.lookup('fields')
+        check(it, 'every-run-works-on-its-own-copy-of-the-specified-mapping', m2 is not m1 and m2 is not None and
+              not (set(map(id, _parts(m1))) & set(map(id, _parts(m2)))))
         c = [e for e in evs if e.kind == 'Call' and e.target == 'process_datapackage']
         check(it, 'descriptor-phase-gets-the-packages-own-descriptor', len(c) == 1 and c[0].objs[0] is package.attrs['pkg'].attrs['descriptor'])
         ys = yields_of(evs)
